@@ -93,6 +93,8 @@ def prepare(ctx):
                                  'Definition gen_out : list (string * list (list otok)) := [("(translator failed)", [[OUnknownWriter "stub"]])].\n'
                                  'Definition gen_out_sig : list (string * (bool * bool)) := [].\n'
                                  'Definition gen_out_cmd : list (string * list (list otok)) := [("(translator failed)", [[OUnknownWriter "stub"]])].\n')
+            stubs['CmdGen.v'] = ('From ErgoBridge Require Import CmdIR.\nFrom Coq Require Import String List.\nImport ListNotations.\nLocal Open Scope string_scope.\n'
+                                 'Definition gen_cmd_prog : cprog := nil.\nDefinition gen_cmd_sections : list (string * (list string * cblock)) := nil.\n')
             for name, text in stubs.items():
                 with open(os.path.join(COQ, 'gen', name), 'w') as f:
                     f.write('(* STUB: tools/gen failed: %s *)\n' % ctx.gen_error.replace('*)', '* )')[:200] + text)
@@ -148,9 +150,10 @@ def compile_props(ctx):
 
 # replay / readiness / compaction are regenerated from graph.go; the properties that stand on them re-check the
 # equivalence theorems between the regenerated definitions and the hand-written model
-EXTRA_BRIDGE = {'C01': ['B_Ready'], 'C03': ['B_Read'], 'C05': ['B_Replay', 'B_Compact'], 'C06': ['B_Replay'], 'C07': ['B_Cycle'], 'C08': ['B_Replay', 'B_Ready'],
-                'C09': ['B_Replay', 'B_Prune'], 'C12': ['B_Read'], 'C13': ['B_Read'], 'C14': ['B_Replay'], 'C15': ['B_Replay', 'B_Ready', 'B_Cycle'], 'C18': ['B_Read'],
-                'C19': ['B_Ready'], 'C20': ['B_Replay', 'B_Compact']}
+EXTRA_BRIDGE = {'C01': ['B_Ready', 'B_CmdGrid'], 'C03': ['B_Read'], 'C05': ['B_Replay', 'B_Compact'], 'C06': ['B_Replay', 'B_CmdGrid'], 'C07': ['B_Cycle', 'B_CmdGrid'],
+                'C08': ['B_Replay', 'B_Ready'], 'C09': ['B_Replay', 'B_Prune', 'B_CmdGrid'], 'C10': ['B_Cmd', 'B_CmdGrid'], 'C12': ['B_Read'], 'C13': ['B_Read'],
+                'C14': ['B_Replay', 'B_CmdGrid'], 'C15': ['B_Replay', 'B_Ready', 'B_Cycle'], 'C16': ['B_CmdGrid'], 'C18': ['B_Read'],
+                'C19': ['B_Ready'], 'C20': ['B_Replay', 'B_Compact', 'B_Cmd']}
 
 
 def compile_bridge(ctx, bname):
@@ -193,7 +196,7 @@ def compile_bridge(ctx, bname):
             nxt = min([src.count('\n', 0, p2) + 1 for p2, _ in starts if p2 > pos] or [10 ** 9])
             ok = failed_line >= nxt if failed_line else False
             ctx.obligations.append((n, ok, '' if ok else note))
-        if bname.startswith('B_C'):
+        if re.fullmatch(r'B_C\d\d', bname):
             ctx.cov['bridge_diagnosis'] = skeleton_diagnosis()
     else:
         if out.count('Closed under the global context') != len(re.findall(r'^Print Assumptions', open(b).read(), re.M)):
